@@ -108,6 +108,19 @@ def state_key(sched):
 def run_schedule(cfg, choices, horizon=900, stateful=False):
   """Execute the program under the given choice prefix.  Returns an Outcome."""
   program, wait, use_with, channels = cfg
+  # channels "1d": one channel, and the chunk size is not passed to play(): it comes from chunks.size,
+  # which the user (here: the harness) changed after the module was imported
+  default_size = isinstance(channels, str)
+  channels = int(str(channels).rstrip("d"))
+  saved_size = type(LIO.chunks).size
+  type(LIO.chunks).size = CHUNK if default_size else saved_size
+  try:
+    return _run_schedule(cfg, choices, horizon, stateful, program, wait, use_with, channels, default_size)
+  finally:
+    type(LIO.chunks).size = saved_size
+
+
+def _run_schedule(cfg, choices, horizon, stateful, program, wait, use_with, channels, default_size):
   VT._reset_labels()
   sched = core.Scheduler(choices, horizon=horizon, line_points=LINE_POINTS, modfile=MODFILE)
   if stateful:
@@ -131,6 +144,8 @@ def run_schedule(cfg, choices, horizon=900, stateful=False):
         kw = {"chunk_size": CHUNK}
         if channels != 1:
           kw["channels"] = channels
+        if default_size:
+          del kw["chunk_size"]        # the documented default: chunks.size, as the user set it
         out.players.append(io.play(audio_items(op[1], p, channels), **kw))
       elif op[0] == "pause":
         out.players[op[1]].pause()
@@ -186,6 +201,7 @@ def run_schedule(cfg, choices, horizon=900, stateful=False):
 def judge(cfg, out):
   """None or (key, what, expected, observed)."""
   program, wait, use_with, channels = cfg
+  channels = int(str(channels).rstrip("d"))
   s = out.sched
   if out.status == "deadlock":
     def role(b):
@@ -418,6 +434,11 @@ def gen_programs(run):
     if "three_players" in t:
       for prog in programs(3, t["three_players"]["ops"], ["one", "twohalf"], late_play=False):
         yield ([prog, wait, False, 1], t["three_players"]["bound"])
+  # the chunk size taken from chunks.size (changed by the user after import) instead of an argument
+  for wait in (False, True):
+    yield ([[["play", "twohalf"]], wait, False, "1d"], 1)
+    yield ([[["play", "twohalf"], ["pause", 0], ["resume", 0]], wait, True, "1d"], 2)
+    yield ([[["play", "one"], ["play", "twohalf"]], wait, False, "1d"], 1)
   # stereo, explicit close in the middle of the program, no player at all
   for wait in (False, True):
     yield ([[["play", "twohalf"], ["pause", 0], ["resume", 0]], wait, False, 2], 2)
